@@ -37,4 +37,33 @@ def lemmas():
                          unwindset="h_fmt_lookup.0:8,h_fmt_lookup.1:8,h_fmt_lookup.2:8", safety=False, object_bits=12, functions=["get_opd_format"],
                          ghosts=["g_a", "g_b", "g_c", "g_d"], tier="quick" if k in (0, 4) else "thorough",
                          desc="operand-format look-up, exhaustive over every operand-type string with first letter #%d: the format returned names exactly the string, every other string gives opd_error" % k))
+    # ---- C10: recognition / rejection lemmas on the real look-up functions and scanners
+    out.append(Lemma(name="C10.T1.str_to_reg", src="reject.c", entry="h_T1_str_to_reg", props=["C10", "C01", "C04"], timeout=1800, unwind=110,
+                     unwindset="find_reg.0:40,strcmp.0:8,s3_find.0:110,s3_find.1:110", ghosts=["g_s"], functions=["str_to_reg", "find_reg"],
+                     desc="register-name recognition on EVERY string that fits the 6-byte register buffer: each of the x86-64 register names (S3 list: 8/16/32/64-bit, high-byte, r8-r15 forms, mm/xmm/ymm) yields the code of exactly that register, the empty string 'no register', every other string the error marker"))
+    out.append(Lemma(name="C10.check_registers", src="reject.c", entry="h_check_registers", props=["C10"], timeout=300, functions=["check_registers"],
+                     desc="a record with the error marker in a register or index of operands 1..3 is rejected, every other record passes (record fully symbolic)"))
+    out.append(Lemma(name="C10.str_to_instr_key", src="reject.c", entry="h_str_to_instr_key", props=["C10", "C09"], timeout=1800,
+                     enforce=[R("str_to_instr_key")], replace=["strcmp/strcmp__any"], unwindset="str_to_instr_key.0:14,str_to_instr_key.1:330", functions=["str_to_instr_key"],
+                     desc="mnemonic look-up on ANY mnemonic string and any format (string comparison abstracted to an arbitrary result): the result is INSTR_ERROR or a table row that lists exactly the requested operand format; reads stay inside the table and the index tables"))
+    out.append(Lemma(name="C10.mem_reject.n16", src="reject.c", entry="h_mem_reject", props=["C10"], timeout=1800, ghosts=["g_m", "g_k"], defs={"MEMN": "16"},
+                     functions=["get_index_reg", "copy_index_reg", "check_sib_disp"], bounded="memory operand text of exactly 16 symbolic bytes (shorter operands through an embedded NUL)",
+                     desc="memory-expression rejections on symbolic operand text: an unclosed bracket is rejected; scale*index is accepted only with a scale of 1, 2, 4 or 8"))
+    # ---- C16: spelling invariance of the real filter (2-run lemmas, bounded line length)
+    SPB = lambda n: "line of %d symbolic characters (no terminator inside) plus the rewritten copy" % n
+    for e, what in (("case", "changing the letter case of any subset of the characters does not change the filtered line"),
+                    ("blank", "an extra blank at any position outside the mnemonic (indentation, around operands and commas, inside brackets, line end) does not change the filtered line"),
+                    ("tail", "a trailing ;comment, %%text, CR or LF with arbitrary bytes behind it does not change the filtered line")):
+        for n, tier in ((12, "quick"), (24, "thorough")):
+            out.append(Lemma(name="C16.%s.n%d" % (e, n), src="spelling.c", entry="h_" + e, props=["C16"], timeout=1800 if tier == "quick" else 3600, ghosts=["g_p"], defs={"SPL": str(n)}, unwind=110,
+                             tier=tier, bounded=SPB(n), functions=["filter_assembly_str_fsa"], desc="2-run lemma on the real filter: " + what))
+    out.append(Lemma(name="C16.blank_after_mnemonic", src="spelling.c", entry="h_blank_after_mnemonic", props=["C16"], timeout=900, defs={"SPL": "16"}, unwind=110,
+                     bounded="mnemonic text of up to 16 symbolic characters", functions=["instr_tok"],
+                     desc="a blank directly behind an operand-less mnemonic: the real tokenizer yields the same record with and without it"))
+    out.append(Lemma(name="C16.skip", src="spelling.c", entry="h_skip", props=["C16", "C06"], timeout=1800, ghosts=["g_p"], defs={"SPL": "16"}, unwind=110,
+                     replace=["line_to_instr/line_to_instr__never"], bounded="line of 16 symbolic characters", functions=["str_to_instr", "filter_assembly_str_fsa"],
+                     desc="real str_to_instr on a label line (colon behind the first letter) or a blank line: success, SKIP, whole line consumed, line_to_instr is never reached (its contract requires false)"))
+    out.append(Lemma(name="C16.skip_directive", src="spelling.c", entry="h_skip_directive", props=["C16", "C06"], timeout=900, unwind=110,
+                     replace=["line_to_instr/line_to_instr__never"], functions=["str_to_instr"],
+                     desc="section / global / empty lines in four concrete spellings (case, indentation, comment, CRLF) are skipped and consumed"))
     return out
